@@ -11,7 +11,7 @@ inductive Err
   | io (e : IoErr)
 deriving DecidableEq, Repr
 
-inductive Panic | divByZero | indexOutOfRange | makeNegative | fillBytesOverflow | sliceOutOfRange | shiftOverflow
+inductive Panic | divByZero | indexOutOfRange | makeNegative | fillBytesOverflow | sliceOutOfRange | shiftOverflow | nilMapWrite
 deriving DecidableEq, Repr
 
 inductive Res (α : Type) where
